@@ -108,6 +108,7 @@ class ShardResult:
         self.harness = []
         self.inconclusive = False
         self.planned = 0
+        self.slowest = (0.0, None)
 
     def record(self, mod, case, out):
         # a case may stand for several executions (e.g. one dataset shape x every fault
@@ -166,7 +167,12 @@ def _shard_main(modname, tier, kind, shard, nshards, seed, n_examples, deadline,
             if track:
                 with open(curpath, "w") as f:
                     f.write(common.canon(case))
-            res.record(mod, case, safe_run(mod, case))
+            t0 = time.time()
+            out = safe_run(mod, case)
+            dt = time.time() - t0
+            if dt > res.slowest[0]:
+                res.slowest = (dt, case if dt > 5 else None)
+            res.record(mod, case, out)
 
         if kind == "enum":
             cases = mod.enumerate_cases(tier)
@@ -342,6 +348,8 @@ class Campaign:
         t.harness.extend(res.harness[: max(0, 5 - len(t.harness))])
         t.inconclusive = t.inconclusive or res.inconclusive
         t.planned += res.planned
+        if res.slowest[0] > t.slowest[0]:
+            t.slowest = res.slowest
 
     def run_probes(self):
         """Re-execute the minimal input of every open known finding the campaign steers around."""
